@@ -1357,6 +1357,7 @@ void eval_instruction (const char *p) {
 
                   sprintf (buff, "%" PRId64, lval->u.number);
                   bl = strlen (buff);
+                  CHECK_JOINED_STRLEN (bl + SVALUE_STRLEN (sp));	/* rhs is still on the stack */
                   res = new_string (bl + SVALUE_STRLEN (sp), "f_add_eq: 3");
                   strcpy (res, buff);
                   strcpy (res + bl, sp->u.string);
@@ -1389,6 +1390,7 @@ void eval_instruction (const char *p) {
 
                   snprintf (buff, sizeof (buff), "%lf", lval->u.real);
                   bl = strlen (buff);
+                  CHECK_JOINED_STRLEN (bl + SVALUE_STRLEN (sp));	/* rhs is still on the stack */
                   res = new_string (bl + SVALUE_STRLEN (sp), "f_add_eq: 4");
                   strcpy (res, buff);
                   strcpy (res + bl, sp->u.string);
